@@ -18,7 +18,11 @@ macro_rules! endian_checks {
         /// Returns the first failed check name, if any.
         #[inline]
         fn $fname(v: $N, partner: $N) -> Option<&'static str> {
-            let w: $W = <$W>::from(v);
+            // black_box: make the optimiser evaluate the checks at run time instead of proving
+            // them at compile time (for the unmodified wrappers LLVM can fold the whole loop away)
+            let v = std::hint::black_box(v);
+            let partner = std::hint::black_box(partner);
+            let w: $W = std::hint::black_box(<$W>::from(v));
             if <$N>::from(w) != v {
                 return Some("from/into round trip");
             }
